@@ -186,6 +186,7 @@ class Scheduler:
         self.kbi_delivered = []    # (step, what) of harness-delivered Ctrl-C
         self.unbilled = set()      # tids inside a signing / pre-flight read
         self.tick = 0.0            # virtual time added at every point
+        self.busy = False          # inside the scheduler (see point())
         self.errors = []           # uncaught exceptions of controlled threads
 
     # -- thread management ---------------------------------------------
@@ -217,6 +218,7 @@ class Scheduler:
 
     def _on_exit(self, t):
         # hand the baton on; called in t's OS thread as its last action
+        self.busy = True
         if self.aborting:
             nxt = next((x for x in self.threads if x.alive), None)
             if nxt is None:
@@ -314,6 +316,17 @@ class Scheduler:
     # -- the scheduling point ------------------------------------------
     def point(self, pred=None, what='', interruptible=False, wake_at=None,
               force_switch=False, prefer=None, urgent=False):
+        # line events raised while the scheduler itself runs code of the
+        # library (predicates, hooks) must not re-enter the scheduler
+        self.busy = True
+        try:
+            return self._point(pred, what, interruptible, wake_at,
+                               force_switch, prefer, urgent)
+        finally:
+            self.busy = False
+
+    def _point(self, pred, what, interruptible, wake_at, force_switch,
+               prefer, urgent):
         c = self.cur
         if self.aborting:
             raise SchedAbort()
@@ -867,7 +880,7 @@ class LinePreempter:
             if owner.files and not code.co_filename.endswith(owner.files):
                 return mon.DISABLE
             cur = sched.cur
-            if cur is None or sched.aborting:
+            if cur is None or sched.aborting or sched.busy:
                 return None
             import threading as _t
             if _t.current_thread() is not cur.os:
